@@ -189,6 +189,25 @@ harness! {
     }
 }
 
+// mean()/count()/sum() as the FIRST read after inserts that are still in the backlog (bounded: one concrete insert)
+harness! {
+    #[kani::unwind(6)]
+    fn c16_td_first_read_sees_backlog() {
+        let mut t = TDigest::new(K0::new(10.), 5);
+        // concrete values: merge() (drain/chain/sort/collect) is too expensive for CBMC with symbolic floats
+        let (x, w) = (1.5, 2.0);
+        t.insert_weighted(x, w);
+        let which: u8 = any();
+        if which == 0 {
+            assert!(t.mean() == x, "C16 mean() as first read includes the backlog");
+        } else if which == 1 {
+            assert!(t.count() == w, "C16 count() as first read includes the backlog");
+        } else {
+            assert!(t.sum() == x * w, "C16 sum() as first read includes the backlog");
+        }
+    }
+}
+
 // public wrapper: a positive finite weight always reaches the digest (complete, loop-free)
 harness! {
     fn c16_td_insert_weighted_wrapper() {
@@ -279,6 +298,8 @@ macro_rules! td_merge {
 td_merge!(c16_td_merge_1_1, 1, 1, 8);
 td_merge!(c16_td_merge_2_1, 2, 1, 8);
 td_merge!(c16_td_merge_1_2, 1, 2, 8);
+
+// (merges of three or more entries are out of CBMC's reach even with concrete values: std's sort explodes in memory)
 
 // merge() with an empty backlog returns before touching anything: repeated reads are identical
 harness! {
